@@ -21,6 +21,19 @@ CHECKS = {
              "flat-map-to-tree glue exercised not modelled. One recorded finding (multi-start when the first group is parallel).",
         technique="Lean 4 proof (structural/mutual induction, List.Perm) + differential correspondence + rule oracle",
     ),
+    "C10": dict(
+        category="proof",
+        text="Lean theorem ingest_spec: for every store with the invariant (unique ids, unique links, no orphan links), "
+             "every span stream and every batch size, ingestion through batching, the integrity-error fall-back and the final "
+             "flush ends ok with exactly the first occurrence of every new id in stream order and its parent link; hence the "
+             "result is independent of the batch size and of where duplicates fall, and re-ingesting is a no-op. The store "
+             "model is compared with IngestData/SQLDataHolder on full table dumps (all duplicate placements over 3 ids, "
+             "random streams over 1-3 runs on a file database).",
+        ref="DESIGN.md §5 C10",
+        note="Trusted: Lean kernel; axioms propext, Quot.sound, Classical.choice; SQLite/SQLAlchemy constraint and "
+             "transaction behaviour modelled from the translated constraint flags, observed through the correspondence.",
+        technique="Lean 4 proof (invariant + induction over the stream) + translator + differential correspondence",
+    ),
     "C16": dict(
         category="proof",
         text="Lean theorems for every instant 1970..2100 at µs precision: calendar round trip (kernel-checked table of all "
